@@ -39,7 +39,9 @@ def _resolve_names(definition_names, avoid_names=()):
             yield name
 
         if name.api_type == 'module':
-            yield from _resolve_names(name.goto(), definition_names)
+            # Avoid everything that was seen on the way here, not just the
+            # last step, otherwise import cycles never end.
+            yield from _resolve_names(name.goto(), set(avoid_names) | set(definition_names))
 
 
 def _dictionarize(names):
